@@ -17,7 +17,7 @@ OK_RESPONSE = b"HTTP/1.1 200 OK\r\nContent-Length: 2\r\n\r\nok"
 
 
 # ----------------------------------------------------------------- (a)
-def run_sched(ch, nfetch, max_clients, late):
+def run_sched(ch, nfetch, max_clients, late, tpat="same"):
     from tornado.httpclient import HTTPRequest
     with World() as w:
         client = make_client(w, mode="manual", max_clients=max_clients)
@@ -28,7 +28,10 @@ def run_sched(ch, nfetch, max_clients, late):
         problems = []
 
         def submit(i):
-            f = client.fetch(HTTPRequest("http://h%d.example/" % i, connect_timeout=5, request_timeout=10),
+            # "last-short": the most recently submitted fetch has the shortest timeout, so that a queued
+            # request that is NOT at the head of the queue can expire first
+            ct = 2 if (tpat == "last-short" and i == nfetch - 1) else 5
+            f = client.fetch(HTTPRequest("http://h%d.example/" % i, connect_timeout=ct, request_timeout=10),
                              raise_error=False)
             futs.append(f)
             done_count.append(0)
@@ -312,19 +315,20 @@ class C09(Check):
         for n in (2, 3):
             for mc in (1, 2):
                 for late in (False, True):
-                    parts.append(("sched", n, mc, late))
+                    for tpat in ("same", "last-short"):
+                        parts.append(("sched", n, mc, late, tpat))
         parts += [("redir", i, 24) for i in range(24)]
         return parts
 
     def run_partition(self, part, tier, st):
         if part[0] == "sched":
-            _, n, mc, late = part
+            _, n, mc, late, tpat = part
             bound = None if n == 2 else (4 if tier == "quick" else 7)
 
             def on_exec(ch, o):
                 st.ev()
                 st.transitions += len(ch.trace)
-                key = h((n, mc, late, tuple(ch.choices())))
+                key = h((n, mc, late, tpat, tuple(ch.choices())))
                 st.states.add(key)
                 if len(ch.trace) >= 3:
                     st.nontrivial.add(key)
@@ -332,15 +336,15 @@ class C09(Check):
                 if o["late_error_logged"]:
                     st.note("note:error-logged-for-late-failure-of-finished-fetch")
                 for sig, msg in o["problems"]:
-                    st.violation("sched:" + sig, "N=%d max_clients=%d late=%r schedule %r: %s" % (n, mc, late, o["trace"], msg),
-                                 {"kind": "sched", "n": n, "mc": mc, "late": late, "choices": ch.choices()})
-            nx, edges, capped = devex.explore(lambda ch: run_sched(ch, n, mc, late), bound=bound, on_exec=on_exec,
+                    st.violation("sched:" + sig, "N=%d max_clients=%d late=%r timeouts=%s schedule %r: %s" % (n, mc, late, tpat, o["trace"], msg),
+                                 {"kind": "sched", "n": n, "mc": mc, "late": late, "tpat": tpat, "choices": ch.choices()})
+            nx, edges, capped = devex.explore(lambda ch: run_sched(ch, n, mc, late, tpat), bound=bound, on_exec=on_exec,
                                               max_execs=400000)
             if capped:
                 st.note("cap_hit")
             st.setmax("deviation_bound_N3", bound or 0)
             if len(st.samples) < 1:
-                o = run_sched(devex.Chooser(), n, mc, late)
+                o = run_sched(devex.Chooser(), n, mc, late, tpat)
                 st.sample({"N": n, "max_clients": mc, "default_schedule": o["trace"], "results": o["results"]})
             return
         _, s, nsl = part
@@ -360,7 +364,7 @@ class C09(Check):
 
     def replay(self, case):
         if case["kind"] == "sched":
-            o = run_sched(devex.Chooser(case["choices"]), case["n"], case["mc"], case["late"])
+            o = run_sched(devex.Chooser(case["choices"]), case["n"], case["mc"], case["late"], case.get("tpat", "same"))
             return repr(o)
         c = tuple(case["case"])
         o = run_redirect(c)
